@@ -369,7 +369,7 @@ Section DictHead.
 
   (** DictDocument.decompose_incoming_envelope + generate_method_contexts: the in_message class and
       the single (key, value) of the request *)
-  Definition dict_decode_head (rq : dict_request) : res (nat * jv * jv) :=
+  Definition dict_decode_head (rq : dict_request) : res (msig * jv * jv) :=
     let! doc := dict_create_in_document P rq in
     match doc with
     | JMap [(k, v)] =>
@@ -381,15 +381,28 @@ Section DictHead.
 End DictHead.
 
 (** HierDictDocument.deserialize: doc = in_body_doc.get(class_name) with class_name the type name
-    of the in_message (a str; bytes for MessagePackDocument), then _doc_to_object; a null body is
-    a call with absent arguments *)
-Definition dict_deserialize (P : dproto) (soft : bool) (A : app) (fuel : nat) (c : nat) (k v : jv) : res unit :=
-  let name := match nth_error (a_classes A) c with Some cl => c_name cl | None => [] end in
-  (* doc.get(class_name): MessagePackDocument looks the type name up as bytes and, when that key
-     is not in the document, as str *)
+    of the in_message - for a bare method the name the method gave it (sub_name) - as a str
+    (MessagePackDocument: as bytes, then as str).  A bare method that is passed null gets None; a
+    bare argument of a primitive type is read by _from_dict_value; a null body of a wrapped method
+    is a call with absent arguments; everything else goes to _doc_to_object *)
+Definition dict_deserialize (P : dproto) (soft : bool) (A : app) (fuel : nat) (m : msig) (k v : jv) : res unit :=
+  let name := match ms_bare m with
+              | Some s => s
+              | None => match ms_ty m with
+                        | TRef c => match nth_error (a_classes A) c with Some cl => c_name cl | None => [] end
+                        | _ => [] end
+              end in
   let hit := match P, k with
              | PMsgpack, JBytes b _ => text_eqb b name
              | _, JStr s => text_eqb s name
              | _, _ => false
              end in
-  if hit then doc_to_object P soft A fuel (TRef c) v else Ret tt.
+  let doc := if hit then v else JNull in
+  match ms_bare m, doc with
+  | Some _, JNull => Ret tt
+  | _, _ =>
+      match ms_ty m with
+      | TLeaf kd => leaf_from_dict_value P soft kd (ms_nillable m) doc
+      | t => doc_to_object P soft A fuel t doc
+      end
+  end.
